@@ -960,6 +960,7 @@ var (
 	reListMap = regexp.MustCompile(`&(_[A-Za-z0-9_]+_(?:list|map))\{`)
 	reGetFn   = regexp.MustCompile(`^func \(x \*fastReflection_(\S+)\) Get\(`)
 	reStruct  = regexp.MustCompile(`^type (\S+) struct \{$`)
+	reOneofM  = regexp.MustCompile("^\t(\\S+)\\s+\\S+\\s+`protobuf_oneof:\"([^\"]+)\"`")
 	reTagged  = regexp.MustCompile("^\t(\\S+)\\s+\\S.*`protobuf:\"[a-z0-9]+,(\\d+),")
 )
 
@@ -1042,6 +1043,9 @@ func (g *genCtx) identLines(st *c12State) {
 					if m := reTagged.FindStringSubmatch(line); m != nil {
 						structField[curStruct+"/"+m[2]] = m[1]
 					}
+					if m := reOneofM.FindStringSubmatch(line); m != nil {
+						structField[curStruct+"/oneof/"+m[2]] = m[1]
+					}
 				}
 			}
 		}
@@ -1090,6 +1094,12 @@ func (g *genCtx) identLines(st *c12State) {
 						// the struct member the generated code uses for the field: protogen's GoName after the plugin's rewrite
 						o.kase("GENFIELD", []string{sx(f.GoName)}, orMissing(structField[gn+"/"+fmt.Sprint(f.Desc.Number())]))
 						o.count("ident/field")
+					}
+				}
+				for _, oo := range m.Oneofs {
+					if !oo.Desc.IsSynthetic() {
+						// protogen's GoName of the oneof before the plugin's rewrite -> the struct member in the emitted code
+						o.kase("GENONEOF", []string{sx(oo.GoName)}, orMissing(structField[gn+"/oneof/"+string(oo.Desc.Name())]))
 					}
 				}
 				o.count("ident/message")
